@@ -76,7 +76,20 @@ func genA(t *rapid.T) CaseA {
 	nf := rapid.IntRange(1, 4).Draw(t, "nfids")
 	fids := rapid.SliceOfNDistinct(rapid.SampledFrom(fidPool), nf, nf, rapid.ID[uint32]).Draw(t, "fids")
 	nops := rapid.IntRange(1, 24).Draw(t, "nops")
+	// three cases in ten use only plain names, so that long interleaved histories are
+	// explored without running into a (known) containment finding first
+	calm := rapid.IntRange(0, 9).Draw(t, "calm") < 3
 	vias := []string{"fs", "bof", "api"}
+	simOpen := map[xkey]bool{} // generator-side guess of what is open (specification level)
+	openFids := func(ag int) []uint32 {
+		var l []uint32
+		for _, f := range append(append([]uint32{}, fids...), 0x99) {
+			if simOpen[xkey{ag, f}] {
+				l = append(l, f)
+			}
+		}
+		return l
+	}
 	for i := 0; i < nops; i++ {
 		var op OpA
 		op.Ag = rapid.IntRange(0, na-1).Draw(t, "ag")
@@ -101,20 +114,33 @@ func genA(t *rapid.T) CaseA {
 		switch op.K {
 		case "open", "write", "close":
 			op.Via = rapid.SampledFrom(vias).Draw(t, "via")
-			if rapid.IntRange(0, 9).Draw(t, "unknownfid") == 0 {
+			cur := openFids(op.Ag)
+			switch {
+			case op.K != "open" && len(cur) > 0 && rapid.IntRange(0, 9).Draw(t, "toopen") < 7:
+				op.FID = rapid.SampledFrom(cur).Draw(t, "openfid")
+			case rapid.IntRange(0, 9).Draw(t, "unknownfid") == 0:
 				op.FID = 0x99
-			} else {
+			default:
 				op.FID = rapid.SampledFrom(fids).Draw(t, "fid")
 			}
 		}
 		switch op.K {
 		case "open":
-			op.Name = genName(t, own, other)
+			if calm {
+				op.Name = genPlainName(t)
+			} else {
+				op.Name = genName(t, own, other)
+			}
 			op.Size = uint64(rapid.IntRange(0, 1000).Draw(t, "size"))
+			const dl = "/L/agents/ID/Download"
+			if tgt, _ := dlTarget(dl, effName(op.Via, op.Name)); inside(dl, tgt) {
+				simOpen[xkey{op.Ag, op.FID}] = true
+			}
 		case "write":
 			op.Data = rapid.SliceOfN(rapid.Byte(), 0, 24).Draw(t, "chunk")
 		case "close":
 			op.Reason = uint32(rapid.IntRange(0, 1).Draw(t, "reason"))
+			delete(simOpen, xkey{op.Ag, op.FID})
 		case "log":
 			op.Via = rapid.SampledFrom([]string{"input", "raw", "output"}).Draw(t, "logvia")
 			op.Text = rapid.StringMatching(`[a-z]{1,8}( [a-z]{1,6})?`).Draw(t, "text")
@@ -122,6 +148,19 @@ func genA(t *rapid.T) CaseA {
 		c.Ops = append(c.Ops, op)
 	}
 	return c
+}
+
+// genPlainName: 1-3 ordinary components joined by any separator spelling.
+func genPlainName(t *rapid.T) string {
+	n := rapid.IntRange(1, 3).Draw(t, "ncomp")
+	s := ""
+	for i := 0; i < n; i++ {
+		if i > 0 {
+			s += rapid.SampledFrom([]string{"/", "\\"}).Draw(t, "psep")
+		}
+		s += rapid.SampledFrom([]string{"f", "a", "b", "report.txt", "x1", "g", "h"}).Draw(t, "pcomp")
+	}
+	return s
 }
 
 // effName: the name DownloadAdd receives.  On the FS path the name travels as a
@@ -454,6 +493,7 @@ func classifyA(c CaseA) core.Class {
 				stray = true
 				cl.Labels = append(cl.Labels, "stray-"+op.K)
 			} else if op.K == "write" {
+				cl.Labels = append(cl.Labels, "write-to-open-transfer")
 				for k := range open {
 					if k.ag == ai && k != key {
 						interleaved = true
@@ -482,7 +522,7 @@ func TestC07a(t *testing.T) {
 	core.Run(t, core.Spec[CaseA]{
 		Property: "C07", Sub: "a",
 		Rule: "1-2 Demon agents, 1-4 file ids, 1-24 steps of open/write/close (also for unknown and closed ids)/screenshot/console-log, each delivered via the real TaskDispatch as COMMAND_FS download callbacks, as BEACON_OUTPUT CALLBACK_FILE* callbacks (reference-encoded as the Demon does) or by calling DownloadAdd/Write/Close; names from a path grammar (.., ., empty, Download/Downloads/Download_x/Down, Screenshots*, own and foreign agent ids, 300-char, NUL, C:, UNC; separators / \\ // \\\\ /\\ \\/, leading/trailing). Oracle after every step: recursive listing (with contents) of a root four levels above the loot root; every created/changed file is the step's own target inside agents/<id>/Download (resp. Screenshots/Desktop_*.png, Console_<id>.log), every created directory is agents/<id>, its Download/Screenshots folder or inside the Download folder; each download file equals the concatenation of the chunks of the transfer that created it; stray writes/closes change nothing; plain names must be accepted. Non-trivial: a name with .., mixed/doubled separators or a prefix-sharing sibling, or a write while >=2 transfers of the agent are open; distinct = (#agents, dotdot, sepmix, sibling, max open, interleaved, #vias, stray)",
-		Gen:   genA, Check: checkA, Classify: classifyA,
+		Gen:  genA, Check: checkA, Classify: classifyA,
 		Assumptions: []string{
 			"file ids and target files of simultaneously open transfers of one agent differ (steps violating this are skipped)",
 			"a name contains at most 7 '..' components so that nothing can leave the observed tree",
